@@ -21,7 +21,11 @@ package PKGNAME
 //   O5 at the end every connection is closed, so every established subscription has ended: per (client, channel)
 //      established-by-frames <= unsubscribe callbacks <= accepted subscribe attempts;
 //   O6 after Shutdown returned and quiescence: hub empty, no client in connected state;
-//   O7 nothing becomes connected afterwards (no connect callback later than the completion of Shutdown).
+//   O7 nothing becomes connected afterwards (no connect callback later than the completion of Shutdown);
+//   O8 the disconnect callback never starts while an alive callback of the same connection is running (alive enter /
+//      exit are logged; an "alive window" step parks the alive callback at its next tick and starts one closing
+//      operation while it is parked - bounded Gosched spinning, no virtual sleep, because close() then blocks on
+//      presenceMu).
 
 import (
 	"bufio"
@@ -59,6 +63,7 @@ const (
 	vfC08Misc
 	vfC08Shutdown
 	vfC08Publish
+	vfC08AliveWindow
 )
 
 type vfC08Step struct {
@@ -71,6 +76,8 @@ type vfC08Step struct {
 	AdvMs  int
 	N      int  // gap publish: number of publications delivered after the dropped one
 	Par    bool // do not wait for quiescence before the next step
+	Close  int  // alive window: 0 Client.Disconnect, 1 Node.Disconnect, 2 transport close, 3 Node.Shutdown
+	Clear  bool // alive window: unsubscribe every channel of the connection first (server API)
 }
 
 type vfC08Chan struct {
@@ -141,6 +148,8 @@ func (s vfC08Step) String() string {
 		r = "Node.Shutdown"
 	case vfC08Publish:
 		r = fmt.Sprintf("publish(c%d)", s.Ch)
+	case vfC08AliveWindow:
+		r = fmt.Sprintf("aliveWindow(k%d clear=%v close=%s)", s.Conn, s.Clear, []string{"Client.Disconnect", "Node.Disconnect", "transportClose", "Node.Shutdown"}[s.Close])
 	}
 	return r + par
 }
@@ -210,7 +219,7 @@ func vfC08Gen(rt *rapid.T) vfC08Case {
 	kinds := []int{vfC08Connect, vfC08Connect, vfC08Release, vfC08Release, vfC08Subscribe, vfC08Subscribe, vfC08Subscribe, vfC08Subscribe, vfC08Subscribe,
 		vfC08UnsubCmd, vfC08UnsubCmd, vfC08ClientUnsub, vfC08ClientUnsub, vfC08NodeUnsub, vfC08GapPublish, vfC08GapPublish, vfC08GapPublish,
 		vfC08Advance, vfC08Advance, vfC08Advance, vfC08Advance, vfC08Advance, vfC08ClientDisconnect, vfC08NodeDisconnect, vfC08TransportClose,
-		vfC08Misc, vfC08Misc, vfC08Publish}
+		vfC08Misc, vfC08Misc, vfC08Publish, vfC08AliveWindow, vfC08AliveWindow, vfC08AliveWindow}
 	// Node.Shutdown at a drawn point of the schedule (half of the cases), otherwise after it
 	shutdownAt := -1
 	if rapid.Bool().Draw(rt, "shutdown_inside") {
@@ -264,8 +273,11 @@ func vfC08Gen(rt *rapid.T) vfC08Case {
 			s.AdvMs = rapid.SampledFrom([]int{1, 500, 1000, 1500, 2000, 3000, 4000, 6000}).Draw(rt, "adv")
 		case vfC08Misc:
 			s.Misc = rapid.IntRange(0, 2).Draw(rt, "misc")
+		case vfC08AliveWindow:
+			s.Close = rapid.SampledFrom([]int{0, 0, 1, 2, 2, 3}).Draw(rt, "awClose")
+			s.Clear = rapid.Bool().Draw(rt, "awClear")
 		}
-		if s.Kind != vfC08Advance && s.Kind != vfC08Release && !(s.Kind == vfC08Subscribe && !s.Gate) {
+		if s.Kind != vfC08Advance && s.Kind != vfC08Release && s.Kind != vfC08AliveWindow && !(s.Kind == vfC08Subscribe && !s.Gate) {
 			// An un-gated subscribe is never started together with another operation: the reply is written before the
 			// subscription is committed, so "established" would be undefined for a close landing in between.
 			s.Par = rapid.IntRange(0, 3).Draw(rt, "par") == 0
@@ -453,6 +465,13 @@ func vfC08Run(t *testing.T, cs vfC08Case, out *vfC08Out, isKnown func(string) bo
 				cb(RPCReply{}, nil)
 			})
 			client.OnMessage(func(e MessageEvent) { w.logEvent(id, "message", "", "") })
+			client.OnAlive(func() {
+				w.logEvent(id, "alive", "", "")
+				if c != nil {
+					w.Gates.Pass("alive:" + c.Name) // a user callback: the library holds presenceMu while it runs
+				}
+				w.logEvent(id, "alive-exit", "", "")
+			})
 			client.OnRefresh(func(e RefreshEvent, cb RefreshCallback) {
 				w.logEvent(id, "refresh", "", fmt.Sprintf("clientSide=%v", e.ClientSideRefresh))
 				if c == nil {
@@ -504,7 +523,10 @@ func vfC08Run(t *testing.T, cs vfC08Case, out *vfC08Out, isKnown func(string) bo
 				conn.Client.OnDisconnect(func(e DisconnectEvent) {
 					w.logEvent(id, "disconnect", "", fmt.Sprintf("code=%d early-handler", e.Code))
 				})
-				conn.Client.OnAlive(func() { w.logEvent(id, "alive", "", "early-handler") })
+				conn.Client.OnAlive(func() {
+					w.logEvent(id, "alive", "", "early-handler")
+					w.logEvent(id, "alive-exit", "", "early-handler")
+				})
 			}
 		}
 
@@ -595,7 +617,7 @@ func vfC08Run(t *testing.T, cs vfC08Case, out *vfC08Out, isKnown func(string) bo
 			}
 		}
 
-		gatedOps, parOps, afterShutdownOps := 0, 0, 0
+		gatedOps, parOps, afterShutdownOps, aliveWindows := 0, 0, 0, 0
 		knownHit := func(key, ex string) bool {
 			if isKnown(key) {
 				if out.known == nil {
@@ -694,7 +716,7 @@ func vfC08Run(t *testing.T, cs vfC08Case, out *vfC08Out, isKnown func(string) bo
 				guardClose(sameUser(k))
 			case vfC08Shutdown:
 				guardClose(states)
-			case vfC08GapPublish, vfC08Publish, vfC08Advance:
+			case vfC08GapPublish, vfC08Publish, vfC08Advance, vfC08AliveWindow:
 				// one delivery gap or one presence tick can spawn several close() calls for the same client at once
 				releaseAllSubGates()
 			}
@@ -794,6 +816,75 @@ func vfC08Run(t *testing.T, cs vfC08Case, out *vfC08Out, isKnown func(string) bo
 				_, _ = w.node.Publish(chName(s.Ch), []byte(`{"x":2}`), WithHistory(20, time.Minute))
 			case vfC08Advance:
 				time.Sleep(time.Duration(s.AdvMs) * time.Millisecond)
+			case vfC08AliveWindow:
+				// Park the alive callback of this connection at its next presence tick and start ONE closing operation
+				// while it is parked. The library holds presenceMu across the alive callback, so on a correct tree close()
+				// blocks on that mutex (not a durable block): no virtual sleep / settle until the gate is released.
+				if inPar {
+					vfSettle()
+				}
+				if closed, _ := k.conn.T.Closed(); closed || !connectSeen(k) || (s.Close == 3 && shutdownDone != nil) {
+					break
+				}
+				cleared := false
+				if s.Clear {
+					for _, ch := range k.conn.Client.Channels() {
+						cleared = true
+						go k.conn.Client.Unsubscribe(ch)
+					}
+					vfSettle()
+				}
+				k.conn.Client.mu.RLock()
+				np := k.conn.Client.nextPresence
+				k.conn.Client.mu.RUnlock()
+				d := time.Until(time.Unix(0, np))
+				if np == 0 || d < 0 || d > 5*time.Second {
+					break
+				}
+				gate := "alive:" + k.conn.Name
+				w.Gates.Arm(gate, 1)
+				time.Sleep(d) // exactly up to the tick: nothing of this client is parked while the clock runs
+				vfSettle()
+				if w.Gates.Waiting(gate) == 0 {
+					w.Gates.Disarm(gate)
+					break
+				}
+				applied = true
+				nsubs := len(k.conn.Client.Channels())
+				switch s.Close {
+				case 0:
+					k.conn.Client.Disconnect(DisconnectForceReconnect)
+				case 1:
+					user := k.conn.User
+					go func() { _ = w.node.Disconnect(user) }()
+				case 2:
+					go k.conn.TransportClose()
+				default:
+					startShutdown()
+				}
+				// bounded spinning: close() reaches transport.Close right before it takes presenceMu
+				for i := 0; i < 300000; i++ {
+					runtime.Gosched()
+					if closed, _ := k.conn.T.Closed(); closed {
+						break
+					}
+				}
+				for i := 0; i < 1000; i++ {
+					runtime.Gosched()
+				}
+				w.Gates.Release(gate)
+				vfSettle()
+				out.label("alive_parked_then_close")
+				out.label("alive_window_close_" + []string{"client_disconnect", "node_disconnect", "transport_close", "shutdown"}[s.Close])
+				switch {
+				case nsubs > 0:
+					out.label("alive_window_with_subscriptions")
+				case cleared:
+					out.label("alive_window_after_last_subscription_removed")
+				default:
+					out.label("alive_window_no_subscriptions")
+				}
+				aliveWindows++
 			case vfC08ClientDisconnect:
 				applied = true
 				k.conn.Client.Disconnect(DisconnectForceReconnect)
@@ -1002,6 +1093,7 @@ func vfC08Run(t *testing.T, cs vfC08Case, out *vfC08Out, isKnown func(string) bo
 			return c
 		}
 		sameInstant := false
+		aliveIn := map[string]int64{} // seq of the alive callback currently running per client
 		lastAt := map[string]time.Duration{}
 		lastKind := map[string]string{}
 		for _, e := range events {
@@ -1035,7 +1127,14 @@ func vfC08Run(t *testing.T, cs vfC08Case, out *vfC08Out, isKnown func(string) bo
 					return "O3: disconnect callback ran twice for client " + vfC08Short(e.Client) + "; events: " + vfC08RenderEvents(events, e.Client)
 				}
 				c.disconnect = e.Seq
+				if in := aliveIn[e.Client]; in != 0 {
+					return fmt.Sprintf("O8: disconnect callback of client %s started (seq %d) while its alive callback (entered at seq %d) was still running - the alive callback runs after the disconnect callback; events: %s",
+						vfC08Short(e.Client), e.Seq, in, vfC08RenderEvents(events, e.Client))
+				}
+			case "alive-exit":
+				aliveIn[e.Client] = 0
 			case "alive":
+				aliveIn[e.Client] = e.Seq
 				if c.nDisconnect > 0 {
 					return "O4: alive callback ran after the disconnect callback for client " + vfC08Short(e.Client) + "; events: " + vfC08RenderEvents(events, e.Client)
 				}
@@ -1210,7 +1309,7 @@ func vfC08Run(t *testing.T, cs vfC08Case, out *vfC08Out, isKnown func(string) bo
 				out.label("probe_got_connect_reply_" + strings.SplitN(name, "#", 2)[0])
 			}
 		}
-		out.nontrivial = liveAtShutdown > 0 || midConnectAtShutdown > 0 || gatedOps > 0 || parOps > 1 || sameInstant
+		out.nontrivial = aliveWindows > 0 || liveAtShutdown > 0 || midConnectAtShutdown > 0 || gatedOps > 0 || parOps > 1 || sameInstant
 		return ""
 	})
 }
